@@ -779,6 +779,19 @@ theorem cholesky_factor_product_via_C03 (A L : Matrix ℝ) (h : cholesky A = som
   rw [toMat_matMul hsh hT, hTm]
   exact hfull hsym
 
+/-- … and the transpose can be taken by C11's model of `Matrix::transpose`
+    (`from_fn((columns, rows), |(c, r)| self.get(r, c))`): the whole consumer chain
+    `L * L.transpose()` is stated with the other properties' models. -/
+theorem cholesky_factor_consumers_C11_C03 (A L : Matrix ℝ) (h : cholesky A = some L) (hn : 1 ≤ A.rows)
+    (hsym : (toMat A.rows A.rows A).transpose = toMat A.rows A.rows A) :
+    ∃ T P, L.transposeP = .ok T ∧
+      Arith.mMatMul (Arith.MView.ofMatrix L) (Arith.MView.ofMatrix T) = .ok P ∧
+      toMat A.rows A.rows P = toMat A.rows A.rows A := by
+  obtain ⟨_, hsh, _⟩ := cholesky_sound A L h
+  have hinv : L.Inv := ⟨by rw [hsh.2.2, hsh.1, hsh.2.1], by rw [hsh.1]; exact hn, by rw [hsh.2.1]; exact hn⟩
+  obtain ⟨P, hP, _, hPA⟩ := cholesky_factor_product_via_C03 A L h hn hsym
+  exact ⟨transposeM L, P, transposeP_eq_transposeM L hinv, hP, hPA⟩
+
 /-! ### API surface of the result structs (`Model/ApiSurface.lean`) -/
 
 /-- `from_unchecked` stores its arguments in field (name) order; `clone_from` leaves exactly a clone
